@@ -1,5 +1,6 @@
 import Abyss.Vu64
 import Abyss.Hash
+import Abyss.Lemmas.KeyGenL
 /-!
 # Lemmas about the vu64 codec, little-endian integers and typed keys (helper lemmas only)
 -/
@@ -124,13 +125,13 @@ theorem Vu64.encode_inj (a b : Nat) (ha : a < 2^64) (hb : b < 2^64) (h : encode 
   exact h1.symm
 
 theorem u64_roundtrip (x : Nat) (h : x < 2^64) : u64OfKey (u64Key x) = x := by
-  unfold u64OfKey u64Key
+  rw [u64OfKey_eq, u64Key_eq]
   rw [List.take_of_length_le (by rw [leBytes_length]; exact Nat.le_refl _), ofLeBytes_leBytes]
   exact Nat.mod_eq_of_lt (by simpa using h)
 theorem u64Key_inj (a b : Nat) (ha : a < 2^64) (hb : b < 2^64) (h : u64Key a = u64Key b) : a = b := by
   rw [← u64_roundtrip a ha, ← u64_roundtrip b hb, h]
 theorem i64_roundtrip (x : Int) (h1 : -2^63 ≤ x) (h2 : x < 2^63) : i64OfKey (i64Key x) = x := by
-  unfold i64OfKey i64Key
+  rw [i64OfKey_eq, i64Key_eq]
   simp only
   rw [List.take_of_length_le (by rw [leBytes_length]; exact Nat.le_refl _), ofLeBytes_leBytes]
   simp only [Nat.reducePow, Int.reducePow] at *
@@ -139,23 +140,29 @@ theorem i64Key_inj (a b : Int) (ha1 : -2^63 ≤ a) (ha2 : a < 2^63) (hb1 : -2^63
     (h : i64Key a = i64Key b) : a = b := by
   rw [← i64_roundtrip a ha1 ha2, ← i64_roundtrip b hb1 hb2, h]
 theorem vu64_roundtrip (x : Nat) (h : x < 2^64) : vu64OfKey (vu64Key x) = some x := by
-  unfold vu64OfKey vu64Key
+  rw [vu64OfKey_eq, vu64Key_eq]
   have := decode_encode x h []
   rw [List.append_nil] at this
   rw [this]; rfl
 theorem vu64Key_inj (a b : Nat) (ha : a < 2^64) (hb : b < 2^64) (h : vu64Key a = vu64Key b) : a = b :=
-  encode_inj a b ha hb h
+  encode_inj a b ha hb (by rwa [vu64Key_eq, vu64Key_eq] at h)
 /-- the stored-key comparison of `DbVu64` decides equality of the integers -/
 theorem cmpKey_vu64 (a b : Nat) (ha : a < 2^64) (hb : b < 2^64) :
     cmpKey .vu64 (vu64Key a) (vu64Key b) = some (decide (a = b)) := by
   have h1 := decode_encode a ha []
   have h2 := decode_encode b hb []
   rw [List.append_nil] at h1 h2
-  unfold cmpKey vu64Key
+  rw [cmpKey_vu64_eq, vu64Key_eq, vu64Key_eq]
   simp only [h1, h2]
 /-- the stored-key comparison of the other key types decides equality of the bytes -/
 theorem cmpKey_bytes (kt : KeyType) (hk : kt ≠ .vu64) (a b : List Nat) :
     cmpKey kt a b = some (decide (a = b)) := by
-  cases kt <;> first | rfl | exact absurd rfl hk
+  have hd : decide (Gen.cmpBytes a b = Ordering.eq) = decide (a = b) :=
+    decide_eq_decide.mpr (Gen.cmpBytes_eq_iff a b)
+  cases kt
+  case vu64 => exact absurd rfl hk
+  all_goals
+    unfold cmpKey
+    simp only [Gen.cmpU8String_eq, Gen.cmpU8Bytes_eq, Gen.cmpU8U64_eq, Gen.cmpU8I64_eq, Option.map_some, hd]
 
 end Abyss
